@@ -1549,3 +1549,179 @@ Proof.
       by (apply IH; [exact Hd|intros k Hk; apply H; right; exact Hk]).
     destruct (f' a) eqn:Ea; [rewrite (Ha eq_refl)|destruct (f a)]; cbn [length]; lia.
 Qed.
+
+Lemma sinv_open s g d :
+  SInv s g -> 0 <= s.(side) <= 1 -> 0 <= d <= 1 -> 0 <= get_next d s ->
+  lookup (sid s.(side) d (get_next d s)) s.(send) = None ->
+  SInv (set_send_streams (s.(send_streams) + 1)
+         (set_send (insert (sid s.(side) d (get_next d s)) None s.(send))
+            (set_next d (get_next d s + 1) s))) g.
+Proof.
+  intros [A B C D E] Hs Hd Hn Ln.
+  set (id := sid (side s) d (get_next d s)) in *.
+  assert (Hii : id_init id = side s) by (apply id_init_sid; lia).
+  assert (Hsd : forall v m, side (set_send_streams v (set_send m (set_next d (get_next d s + 1) s))) = side s)
+    by (intros; unfold set_next; destr_if; autorewrite with st; reflexivity).
+  assert (Hrp : forall v m, next_reported_bi (set_send_streams v (set_send m (set_next d (get_next d s + 1) s))) = next_reported_bi s)
+    by (intros; unfold set_next; destr_if; autorewrite with st; reflexivity).
+  constructor; unfold cnt, counted in *; rewrite ?Hsd, ?Hrp; autorewrite with st; auto.
+  - rewrite cnt_filter_insert. rewrite Hii, Z.eqb_refl. cbn [orb]. lia.
+  - intros k Hk Hr. apply keys_insert in Hk. destruct Hk as [->|Hk]; [congruence|auto].
+  - intros k x Lk. rewrite lookup_insert in Lk by exact Ln. destruct (k =? id); [discriminate|].
+    eapply D; eauto.
+Qed.
+
+Lemma sinv_accept s g :
+  SInv s g -> NoDup (keys s.(send)) -> 0 <= s.(side) <= 1 ->
+  SInv (set_send_streams (s.(send_streams) + 1) (set_next_reported_bi (s.(next_reported_bi) + 1) s))
+       (mkGhost 2 g.(g_par) g.(g_md) g.(g_msd) g.(g_ms) g.(g_closed)).
+Proof.
+  intros [A B C D E] N Hsd.
+  constructor; unfold cnt, counted in *; autorewrite with st; auto; try lia;
+    try (cbn; intros Hc; exfalso; apply Hc; reflexivity);
+    try (intros id x Lk Hr Hs; specialize (D id x Lk Hr Hs); lia).
+  - pose proof (filter_le_one
+        (fun k => (id_init k =? side s) || ((id_dir k =? 0) && (id_index k <? next_reported_bi s)))
+        (fun k => (id_init k =? side s) || ((id_dir k =? 0) && (id_index k <? next_reported_bi s + 1)))
+        (sid (1 - side s) 0 (next_reported_bi s)) (keys (send s)) N) as Hle.
+    assert (Hx : forall k, In k (keys (send s)) ->
+              (id_init k =? side s) || ((id_dir k =? 0) && (id_index k <? next_reported_bi s + 1)) = true ->
+              (id_init k =? side s) || ((id_dir k =? 0) && (id_index k <? next_reported_bi s)) = true
+              \/ k = sid (1 - side s) 0 (next_reported_bi s)).
+    { intros k Hk Hf.
+      destruct (id_init k =? side s) eqn:E1; [left; reflexivity|]. cbn [orb] in *.
+      destruct (id_dir k =? 0) eqn:E2; [|discriminate]. cbn [andb] in *.
+      destruct (id_index k <? next_reported_bi s) eqn:E3; [left; reflexivity|]. right.
+      unfold sid, id_init, id_dir, id_index in *. lia. }
+    specialize (Hle Hx). lia.
+Qed.
+
+Lemma sinv_remove s g id x :
+  SInv s g -> NoDup (keys s.(send)) -> lookup id s.(send) = Some (Some x) -> x.(s_state) <> 0 ->
+  1 <= s.(send_streams)
+  /\ SInv (set_send_streams (s.(send_streams) - 1) (set_send (remove id s.(send)) s)) g.
+Proof.
+  intros [A B C D E] N Lk Hs.
+  assert (Hin : In id (keys (send s))) by (eapply lookup_in_keys; eauto).
+  assert (Hc : counted s id = true).
+  { unfold counted. destruct (id_init id =? side s) eqn:E1; [reflexivity|]. cbn [orb].
+    assert (Hr : id_init id <> side s) by lia.
+    rewrite (C id Hin Hr). red_eqb. cbn [andb]. specialize (D id x Lk Hr Hs). lia. }
+  pose proof (cnt_filter_remove (counted s) id (send s) N Hin) as Hf. rewrite Hc in Hf. cbv iota in Hf.
+  unfold cnt in A. split; [lia|].
+  constructor; unfold cnt, counted in *; autorewrite with st; auto.
+  - lia.
+  - intros k Hk. apply C. eapply keys_remove_subset. exact Hk.
+  - intros k y Ly. destruct (Z.eq_dec k id) as [->|Hn].
+    + rewrite lookup_remove_eq in Ly by exact N. discriminate.
+    + rewrite lookup_remove_neq in Ly by exact Hn. eapply D; eauto.
+Qed.
+
+Lemma sinv_put_app s g id x y :
+  SInv s g -> lookup id s.(send) = Some (Some x) ->
+  (id_init id <> s.(side) -> id_index id < s.(next_reported_bi)) ->
+  SInv (put id y s) g.
+Proof.
+  intros [A B C D E] Lk Happ.
+  constructor; unfold cnt, counted, put in *; autorewrite with st; rewrite ?keys_update; auto.
+  intros k z Lz Hr Hs. rewrite lookup_update in Lz. destruct (k =? id) eqn:E1.
+  - assert (k = id) by lia. subst k. auto.
+  - eapply D; eauto.
+Qed.
+
+Lemma SInv_ext s s' g : kcore s = kcore s' -> SInv s g -> SInv s' g.
+Proof. intros H I. eapply sinv_kq; [exact I|apply kq_core; exact H]. Qed.
+
+Ltac kcore_eq0 :=
+  unfold kcore, put, push_pending, set_next, set_max, set_blocked;
+  repeat match goal with |- context [if ?c then _ else _] => destruct c end;
+  autorewrite with st; reflexivity.
+
+Lemma app_ok_remote s id x :
+  app_ok s id = true -> lookup id s.(send) = Some (Some x) ->
+  id_init id <> s.(side) -> id_index id < s.(next_reported_bi).
+Proof.
+  unfold app_ok, in_map_remote. intros H L Hr. rewrite L in H.
+  destruct (id_init id =? side s) eqn:E; [lia|]. cbn [negb andb orb] in H. lia.
+Qed.
+
+Lemma finish_sinv s g id s' r :
+  SInv s g -> app_ok s id = true -> do_finish id s = Some (s', r) -> SInv s' g.
+Proof.
+  intros I Ha F. unfold do_finish, ok in F.
+  destruct (touch id s) as [[x s1]|] eqn:T; [|injection F as <- _; exact I].
+  destruct (kq_touch _ _ _ _ T) as (K1 & L1 & _).
+  pose proof (sinv_kq _ _ _ I K1) as I1.
+  destruct (s_stop x); [injection F as <- _; exact I1|].
+  destruct (s_state x =? 0); [|injection F as <- _; exact I1].
+  injection F as <- _.
+  assert (Happ : id_init id <> side s1 -> id_index id < next_reported_bi s1).
+  { destruct K1 as (E1 & _ & E3 & _). rewrite E1, E3. intros Hr.
+    unfold app_ok, in_map_remote in Ha. unfold touch in T.
+    destruct (lookup id (send s)) as [[z|]|] eqn:Lz; [| |discriminate];
+      destruct (id_init id =? side s) eqn:E; try lia; cbn [negb andb orb] in Ha; lia. }
+  pose proof (sinv_put_app s1 g id x (set_s_fin_pending true (set_s_state 1 x)) I1 L1 Happ) as I2.
+  destruct (is_pending x); [exact I2|]. eapply SInv_ext; [|exact I2]. kcore_eq0.
+Qed.
+
+Lemma reset_sinv s g id s' r :
+  SInv s g -> app_ok s id = true -> do_reset id s = Some (s', r) -> SInv s' g.
+Proof.
+  intros I Ha F. unfold do_reset, ok in F.
+  destruct (touch id s) as [[x s1]|] eqn:T; [|injection F as <- _; exact I].
+  destruct (kq_touch _ _ _ _ T) as (K1 & L1 & _).
+  pose proof (sinv_kq _ _ _ I K1) as I1.
+  destruct (s_state x =? 3); [injection F as <- _; exact I1|].
+  destruct (sb_unacked x) as [u|]; [|discriminate].
+  destruct (unacked_data s1 <? u); [discriminate|]. injection F as <- _.
+  assert (Happ : id_init id <> side s1 -> id_index id < next_reported_bi s1).
+  { destruct K1 as (E1 & _ & E3 & _). rewrite E1, E3. intros Hr.
+    unfold app_ok, in_map_remote in Ha. unfold touch in T.
+    destruct (lookup id (send s)) as [[z|]|] eqn:Lz; [| |discriminate];
+      destruct (id_init id =? side s) eqn:E; try lia; cbn [negb andb orb] in Ha; lia. }
+  eapply SInv_ext; [|apply (sinv_put_app s1 g id x (set_s_state 3 x) I1 L1 Happ)]. kcore_eq0.
+Qed.
+
+Lemma reject_keys_sub s s' k :
+  do_reject s = Some s' -> NoDup (keys s.(send)) -> In k (keys s'.(send)) -> In k (keys s.(send)).
+Proof.
+  unfold do_reject, reject_with. intros R N Hin.
+  destruct (remove_locals (side s) 0 (Z.to_nat (next_bi s)) (send s)) as [m1|] eqn:R1; [|discriminate].
+  destruct (remove_locals (side s) 1 (Z.to_nat (next_uni s)) m1) as [m2|] eqn:R2; [|discriminate].
+  injection R as <-. autorewrite with st in Hin.
+  destruct (remove_locals_spec _ _ _ _ _ R1 N) as (Nd1 & A1 & B1).
+  destruct (remove_locals_spec _ _ _ _ _ R2 Nd1) as (Nd2 & A2 & B2).
+  destruct (lookup k m2) as [v|] eqn:L; [|apply in_keys_lookup in Hin; contradiction].
+  assert (H2 : ~ is_loc (side s) 1 (Z.to_nat (next_uni s)) k) by (intros Hl; rewrite (A2 k Hl) in L; discriminate).
+  rewrite (B2 k H2) in L.
+  assert (H1 : ~ is_loc (side s) 0 (Z.to_nat (next_bi s)) k) by (intros Hl; rewrite (A1 k Hl) in L; discriminate).
+  rewrite (B1 k H1) in L. eapply lookup_in_keys. exact L.
+Qed.
+
+Lemma reject_sinv s g s' g' :
+  SInv s g -> NoDup (keys s.(send)) -> g.(g_phase) = 0 -> do_reject s = Some s' ->
+  Inv s' g' -> g'.(g_phase) = 1 -> SInv s' g'.
+Proof.
+  intros [A B C D E] N Hp R I' Hp'.
+  assert (Hf : side s' = side s /\ next_reported_bi s' = next_reported_bi s /\ send_streams s' = 0).
+  { unfold do_reject, reject_with in R.
+    destruct (remove_locals _ _ _ _) as [m1|]; [|discriminate].
+    destruct (remove_locals _ _ _ m1) as [m2|]; [|discriminate].
+    injection R as <-. autorewrite with st. auto. }
+  destruct Hf as (F1 & F2 & F3). specialize (E ltac:(lia)).
+  assert (Hrem : forall k, In k (keys (send s')) -> id_init k <> side s').
+  { intros k Hk El. destruct (i_keys _ _ I' k Hk) as (K2 & K3). specialize (K3 El).
+    destruct (i_early _ _ I' ltac:(lia)) as (_ & _ & _ & M4). destruct (M4 Hp') as (N1 & N2 & _).
+    unfold get_next, id_index in K3. destr_if; lia. }
+  constructor; rewrite ?F1, ?F2, ?F3; auto; try lia.
+  - assert (Hnc : forall k, In k (keys (send s')) -> counted s' k = false).
+    { intros k Hk. unfold counted. rewrite F2, E. specialize (Hrem k Hk).
+      destruct (i_keys _ _ I' k Hk) as (K2 & _).
+      destruct (id_init k =? side s') eqn:E1; [lia|]. cbn [orb].
+      destruct (id_dir k =? 0); cbn [andb]; [|reflexivity]. unfold id_index. lia. }
+    unfold cnt. replace (filter (counted s') (keys (send s'))) with (@nil Z); [cbn; lia|].
+    symmetry. clear -Hnc. induction (keys (send s')) as [|k t IH]; [reflexivity|].
+    cbn [filter]. rewrite (Hnc k (or_introl eq_refl)). apply IH. intros k' Hk'. apply Hnc. right. exact Hk'.
+  - intros k Hk Hr. rewrite <- F1 in *. apply C; [eapply reject_keys_sub; eauto|congruence].
+  - intros id x Lk. destruct (phase1_no_streams _ _ _ _ I' Hp' Lk).
+Qed.
